@@ -114,7 +114,7 @@ func drawChunks(t *rapid.T, label string, size int) []int {
 	return c
 }
 
-var plainKinds = []string{"write-msg", "writer", "writer", "writer-fail", "shared-send", "read-data", "read-msg", "reader", "ping", "ping", "pong", "compiled"}
+var plainKinds = []string{"write-msg", "writer", "writer", "writer-fail", "shared-send", "send-close", "read-data", "read-msg", "reader", "ping", "ping", "pong", "compiled"}
 var flateKinds = []string{"flate-send", "flate-recv", "flate-writer", "flate-reader"}
 
 // drawTemplate draws the shape of a session. light = layer 2 (many sessions per case).
@@ -923,6 +923,34 @@ func (s *session) stepWriterFail(o op) {
 	wsutil.PutWriter(w)
 }
 
+// stepSendClose builds a close frame the documented way and sends it; the
+// peer decodes status code and reason from what arrived.
+func (s *session) stepSendClose(o op) {
+	wellKnown := []ws.StatusCode{ws.StatusNormalClosure, ws.StatusGoingAway, ws.StatusProtocolError, ws.StatusUnsupportedData,
+		ws.StatusInvalidFramePayloadData, ws.StatusPolicyViolation, ws.StatusMessageTooBig, ws.StatusMandatoryExt, ws.StatusInternalServerError, 3000, 4999}
+	code := wellKnown[o.spec.Which%len(wellKnown)]
+	reason := ""
+	if o.spec.Frag == 3 { // a third of the cases carry a reason
+		reason = word(s.id, 1000+o.idx*16, o.spec.Size%120)
+	}
+	f := ws.NewCloseFrame(ws.NewCloseFrameBody(code, reason))
+	if s.tpl.Client {
+		f = ws.MaskFrameInPlace(f)
+	}
+	rec := tx.NewRec()
+	err := ws.WriteFrame(s.dst(rec), f)
+	// the peer's view
+	fs, rest, _ := ref.ParseFrames(rec.Bytes())
+	gotCode, gotReason, shape := -1, "", false
+	if len(fs) == 1 && len(rest) == 0 && fs[0].H.Op == ref.OpClose && fs[0].H.Fin && fs[0].H.Masked == s.tpl.Client && len(fs[0].Payload) >= 2 {
+		shape = true
+		gotCode = int(fs[0].Payload[0])<<8 | int(fs[0].Payload[1])
+		gotReason = string(fs[0].Payload[2:])
+	}
+	s.logf("err=%s wrote=%s peer-sees code=%d reason=%s", renderErr(err), renderWire(rec.Bytes()), gotCode, digest([]byte(gotReason)))
+	s.expect(err == nil && shape && gotCode == int(code) && gotReason == reason, "close frame built with NewCloseFrameBody(%d, %d-byte reason) arrives as code %d with a %d-byte reason", code, len(reason), gotCode, len(gotReason))
+}
+
 // sharedPayloads are read-only messages every session may send (an
 // application fanning one message out to many connections). Nobody but
 // TestMain writes them.
@@ -1464,6 +1492,8 @@ func (s *session) step() {
 			s.stepWriterFail(o)
 		case "shared-send":
 			s.stepSharedSend(o)
+		case "send-close":
+			s.stepSendClose(o)
 		case "read-data":
 			s.stepReadData(o)
 		case "read-msg":
